@@ -279,7 +279,8 @@ def triple_cases(draw, tier="quick"):
     rows = []
     for _ in range(n):
         rows.append([[draw(prefixes()), draw(idents())] for _ in range(3)])
-    return {"rows": rows, "gz": draw(st.booleans()), "named": draw(st.booleans())}
+    return {"rows": rows, "gz": draw(st.booleans()), "named": draw(st.booleans()),
+            "header": draw(st.sampled_from([None, None, ["a", "b", "c"], ["object", "predicate", "subject"], ["s", "p", "o"]]))}
 
 
 _counter = [0]
@@ -294,7 +295,10 @@ def check_triples(case, stats: Stats) -> None:
     _counter[0] += 1
     path = scratch_dir() / f"t{_counter[0]}.tsv{'.gz' if case['gz'] else ''}"
     try:
-        write_triples(triples, path)
+        if case.get("header") is None:
+            write_triples(triples, path)
+        else:
+            write_triples(triples, path, header=list(case["header"]))
         back = read_triples(path)
     finally:
         if path.exists():
